@@ -26,14 +26,15 @@ type Wire struct {
 }
 
 type SimNode struct {
-	id      spectypes.OperatorID
-	c       *Case
-	script  []ScriptOp
-	next    int // index of the next wire message not yet offered to this node
-	byz     bool
-	decided bool
-	value   []byte
-	compact bool // runner-style compaction after each message
+	id               spectypes.OperatorID
+	c                *Case
+	script           []ScriptOp
+	next             int // index of the next wire message not yet offered to this node
+	byz              bool
+	decided          bool
+	value            []byte
+	compact          bool // runner-style compaction after each message
+	decidedCompacted bool // policy decided-only: instance.Compact already ran on the decided instance
 }
 
 type Sim struct {
